@@ -12,7 +12,9 @@ RULE = (
     "span appears exactly once as before+text[s:e]+after, in span order. (b) forced alignment: plain over alphabet P, "
     "source = plain with material over a disjoint alphabet Q inserted at arbitrary positions (so the position of every "
     "plain character in the source is known and the minimal diff is unique), fast_diff_match_patch engine; oracle: the "
-    "text between the k-th before/after pair is source[pos(s) : pos(e-1)+1], order kept. (c) arbitrary string pairs, "
+    "text between the k-th before/after pair is source[pos(s) : pos(e-1)+1], order kept; in a third of the cases the "
+    "inserted material consists of self-contained well-formed snippets (<br/>, comments, empty elements) and the mode is "
+    "drawn from {skip, wrap, unchecked}: with nothing to repair all three must give the same enclosure. (c) arbitrary string pairs, "
     "both engines; oracle: each offset translation flavour is monotone and within [0, len(source)] and "
     "T_start(s) <= T_end(e) for s < e. Non-trivial: (a) >= 2 spans; (b) inserted material adjacent to an annotation "
     "boundary; (c) strings differ; distinct = distinct case"
@@ -23,6 +25,9 @@ ASSUMPTIONS = [
 ]
 P = "ABCDE 123.,§"
 Q = ["<i>", "</i>", "<em>", "</em>", "\n", "\t", "<p>", "</p>", "<br/>", "zz", "<a>", "</a>", "\r"]
+# self-contained, well-formed snippets: whatever slice of the source an annotation of plain characters covers is
+# balanced markup, so the tag-handling modes have nothing to repair and must behave like "unchecked"
+Q_BAL = ["<br/>", "<hr/>", "<!--zz-->", "<a\nid=\"pq\"/>", "\n", "\t", "<i></i>", "<em>zz</em>", "<b/>", "<!---->"]
 _PAIR = re.compile("\ue000([0-9]+)\ue001(.*?)\ue002\\1\ue003", re.S)
 _SENT = re.compile("[\ue000\ue002][0-9]+[\ue001\ue003]")
 
@@ -30,7 +35,7 @@ _SENT = re.compile("[\ue000\ue002][0-9]+[\ue001\ue003]")
 def setup(tier):
     from vf.core import HarnessError
 
-    if set("".join(Q)) & set(P):
+    if set("".join(Q + Q_BAL)) & set(P):
         raise HarnessError("inserted alphabet Q must be disjoint from the plain alphabet P")
 
 
@@ -110,7 +115,7 @@ def evaluate(case):
         by_pos = {}
         for pos_, qi in ins:
             if 0 <= pos_ <= len(plain):
-                q = Q[qi % len(Q)]
+                q = (Q_BAL if case.get("bal") else Q)[qi % len(Q_BAL if case.get("bal") else Q)]
                 if case.get("multiline") and ("\n" in q or "\r" in q):
                     q = "zz"
                 by_pos.setdefault(pos_, []).append(q)
@@ -124,7 +129,10 @@ def evaluate(case):
         anns = [((a, b),) + sent(k) for k, (a, b) in enumerate(spans)]
         if case.get("rev"):
             anns = anns[::-1]
-        out = call(annotate_citations, plain, iter(anns) if case.get("iter") else anns, source_text=src, unbalanced_tags="unchecked", use_dmp=True)
+        mode = case.get("mode", "unchecked") if case.get("bal") else "unchecked"
+        if case.get("bal"):
+            res.label("balanced-insertions", "mode:" + mode)
+        out = call(annotate_citations, plain, iter(anns) if case.get("iter") else anns, source_text=src, unbalanced_tags=mode, use_dmp=True)
         if isinstance(out, Raised):
             res.v("raises:" + out.bucket(), repr(out))
             return res
@@ -213,7 +221,9 @@ def _forced(draw):
         for edge in (a, b):
             if draw(st.integers(0, 2)) == 0:
                 ins.append([edge, draw(st.integers(0, len(Q) - 1))])
-    return {"kind": "forced", "plain": plain, "ins": ins, "spans": spans, "rev": draw(st.booleans()), "iter": draw(st.integers(0, 3)) == 0}
+    bal = draw(st.integers(0, 2)) == 0
+    return {"kind": "forced", "plain": plain, "ins": ins, "spans": spans, "rev": draw(st.booleans()), "iter": draw(st.integers(0, 3)) == 0,
+            "bal": bal, "mode": draw(st.sampled_from(["skip", "wrap", "unchecked"])) if bal else "unchecked"}
 
 
 @st.composite
